@@ -5,11 +5,11 @@ cd "$(dirname "${BASH_SOURCE[0]}")"
 . ./lib.sh
 prep_quic
 gen_gomod
-mkdir -p "$BUILD/bin" evidence replays
-( cd harness && $GO build -o "$BUILD/bin/vcheck" ./cmd/vcheck )
+mkdir -p "$BIN" evidence replays
+( cd harness && $GO build -o "$BIN/vcheck" ./cmd/vcheck )
 # warm the build cache for every simulator package
 for p in $(cd harness && ls -d *sim 2>/dev/null); do
   [ "$p" = sim ] && continue
-  ( cd harness && $GO test -c -tags verif -o "$BUILD/bin/$p.test" "./$p/" ) 2>&1 | grep -v 'GNU-stack\|deprecated' || true
+  ( cd harness && $GO test -c -tags verif -o "$BIN/$p.test" "./$p/" ) 2>&1 | grep -v 'GNU-stack\|deprecated' || true
 done
 echo "setup ok"
